@@ -73,7 +73,11 @@ def gen_case(rng, k):
     atmvol = rng.choice([1e25, 1e25, 1e50, 0.0]) if atm != 2 else 1e25
     return {'dx': dx, 'dy': dy, 'dz': dz, 'origin': org, 'rotation': rot, 'atmos_type': atm, 'convention': conv,
             'surface_kind': surf_kind, 'atmosphere_volume': atmvol, 'via_file': viafile, 'seed': rng.randint(0, 10 ** 9),
-            'rename': rng.random() < 0.5}
+            'rename': rng.random() < 0.5,
+            # optional arguments of rectgeo(): how the reconstructed geometry names and orders its items, and the origin block
+            # given by the caller instead of being searched for (none of them may change what is reconstructed)
+            'options': {} if k % 3 else dict(x for x in [('block_order', rng.choice(['layer_column', 'dmplex'])), ('justify', 'l'), ('chars', 'qrstuvwxyz' + 'klmnop'),
+                                                           ('spaces', False), ('origin_block', True)] if rng.random() < 0.5)}
 
 
 def build_geo(case):
@@ -133,6 +137,11 @@ def compare_geometries(ctx, G, G2, case, tolh, tolz, label):
     l2 = sorted((l.bottom, l.top) for l in G2.layerlist[1:])
     if len(l1) != len(l2) or any(abs(a[0] - b[0]) > tolz or abs(a[1] - b[1]) > tolz for a, b in zip(l1, l2)):
         return V('layers', 'layers (bottom, top) %r, original %r' % (l2[:4], l1[:4]))
+    # the surface layer: the top of the model (it has no thickness; everything above the ground hangs on its elevation:
+    # atmosphere block centres, the elevation a geometry file records)
+    a1, a2 = G.layerlist[0], G2.layerlist[0]
+    if any(abs(x - y) > tolz for x, y in ((a1.bottom, a2.bottom), (a1.top, a2.top), (a1.centre, a2.centre))):
+        return V('surface-layer-elevation', 'surface layer (bottom, centre, top) %r, original %r' % ((a2.bottom, a2.centre, a2.top), (a1.bottom, a1.centre, a1.top)))
     # columns matched by centre
     unmatched = list(G2.columnlist)
     for c in G.columnlist:
@@ -191,6 +200,7 @@ def run_case(ctx, case):
     t2g, t2d = R.t2grids, R.t2data
     geo, ncut = build_geo(case)
     g = t2g.t2grid().fromgeo(geo)
+    mp_now = {}
     if case.get('rename'):
         # unrelated block names: the returned block map has to carry all the information
         import random
@@ -203,6 +213,7 @@ def run_case(ctx, case):
                 n = '%s%s%s%02d' % (rr.choice(L), rr.choice(L), rr.choice(L), rr.randint(10, 99))
             fresh.add(n)
             mp[b.name] = n
+        mp_now = dict(mp)
         g.rename_blocks(mp)
     label = 'memory'
     extent = max(sum(case['dx']), sum(case['dy']), sum(case['dz']))
@@ -239,8 +250,16 @@ def run_case(ctx, case):
     mech = label + (':single-block-in-direction-1' if len(case['dx']) == 1 else (':single-block-in-direction-2' if len(case['dy']) == 1 else ''))
     if case['atmosphere_volume'] == 0.0:
         mech += ':zero-volume-atmosphere'
+    kw = dict(case.get('options') or {})
+    if kw.get('origin_block'):
+        # the block at the origin of the two horizontal axes in the bottom layer, under its current name
+        kw['origin_block'] = mp_now.get(geo.block_name(geo.layerlist[-1].name, geo.columnlist[0].name), geo.block_name(geo.layerlist[-1].name, geo.columnlist[0].name))
+    if kw.get('chars') and case['convention'] in (1, 2) and (len(case['dx']) + 1) * (len(case['dy']) + 1) > 99:
+        kw.pop('chars')
+    for k_ in kw:
+        ctx.see('rectgeo_option', k_ if k_ != 'block_order' else 'block_order=%s' % kw[k_])
     with ctx.guard(case, where='rectgeo:' + mech) as gd:
-        G2, bm = g.rectgeo(atmos_volume=1e25, convention=case['convention'], atmos_type=case['atmos_type'])
+        G2, bm = g.rectgeo(atmos_volume=1e25, convention=case['convention'], atmos_type=case['atmos_type'], **kw)
     if gd.raised is not None:
         return
     ctx.evaluated()
